@@ -5,6 +5,7 @@ package aml
 
 import (
 	"fmt"
+	"io/ioutil"
 	"os"
 	"runtime"
 	"runtime/debug"
@@ -176,12 +177,15 @@ func c12StartWatchdog(run *vlib.Run) (stop func()) {
 				}
 				what, _ := c12CallWhat.Load().(string)
 				if el := time.Now().UnixNano() - st; el > atomic.LoadInt64(&c12CallLimit) {
-					run.Watchdog(fmt.Sprintf("%s did not return within %v", what, time.Duration(atomic.LoadInt64(&c12CallLimit))))
+					c12NoteWatchdog(run)
+					// (no duration in the text: vcheck builds the signature from it)
+					run.Watchdog(what + " did not return within its time bound")
 				}
 				if n++; n%5 == 0 {
 					var ms runtime.MemStats
 					runtime.ReadMemStats(&ms)
 					if ms.HeapAlloc > c12MemLimit {
+						c12NoteWatchdog(run)
 						run.Watchdog(fmt.Sprintf("%s: heap grew past %d MiB", what, c12MemLimit>>20))
 					}
 				}
@@ -189,6 +193,39 @@ func c12StartWatchdog(run *vlib.Run) (stop func()) {
 		}
 	}()
 	return func() { close(done) }
+}
+
+// A hang costs the watchdog bound plus vcheck's confirmation run with 20x that
+// bound. Signatures are de-duplicated, so after the second firing in one shard
+// nothing new is learnt: the shard's later restarts stop at once (recorded as
+// inconclusive for the cases not run). The count lives in vcheck's private work
+// directory of this invocation.
+const c12MaxWatchdogFirings = 2
+
+func c12WatchdogFile(run *vlib.Run) string {
+	dir := os.Getenv("VERIF_WORK")
+	if dir == "" || run.Single() || run.Replay {
+		return ""
+	}
+	return fmt.Sprintf("%s/c12-watchdog-shard%d.log", dir, run.Shard)
+}
+
+func c12NoteWatchdog(run *vlib.Run) {
+	if fn := c12WatchdogFile(run); fn != "" {
+		if f, err := os.OpenFile(fn, os.O_CREATE|os.O_WRONLY|os.O_APPEND, 0644); err == nil {
+			f.WriteString("fired\n")
+			f.Close()
+		}
+	}
+}
+
+func c12WatchdogFirings(run *vlib.Run) int {
+	if fn := c12WatchdogFile(run); fn != "" {
+		if b, err := ioutil.ReadFile(fn); err == nil {
+			return strings.Count(string(b), "\n")
+		}
+	}
+	return 0
 }
 
 // ---------------------------------------------------------------------------
@@ -665,6 +702,10 @@ func TestVerifC12(t *testing.T) {
 	run.Assume("a stack of " + fmt.Sprint(c12MaxStack>>20) + " MiB is enough for any recursion whose depth is linear in a 64 KiB input; exceeding it is reported as stack overflow")
 	run.Assume("wall clock is used only by the watchdog (2 s + 1 ms/byte; a firing is re-run alone with 20x before vcheck reports it)")
 
+	if n := c12WatchdogFirings(run); n >= c12MaxWatchdogFirings {
+		run.Inconclusive(fmt.Sprintf("shard %d: the watchdog fired %d times (reported separately); the cases from index %d on were not run", run.Shard, n, run.From))
+		return
+	}
 	if err := c12LoadBases(); err != nil {
 		t.Fatalf("C12: cannot load the shipped tables: %v", err)
 	}
